@@ -905,6 +905,13 @@ impl ASN1Value {
                 ASN1Type::ElsewhereDeclaredType(e),
                 ASN1Value::LinkedNestedValue { supertypes, value },
             ) => {
+                if supertypes.contains(&e.identifier) {
+                    return Err(grammar_error!(
+                        LinkerError,
+                        "Circular type reference '{}'",
+                        e.identifier
+                    ));
+                }
                 supertypes.push(e.identifier.clone());
                 if let ASN1Value::LinkedIntValue { integer_type, .. } = value.borrow_mut() {
                     let int_type = e.constraints.iter().fold(IntegerType::Unbounded, |acc, c| {
@@ -1354,7 +1361,31 @@ impl ASN1Value {
                     identifier,
                 },
             ) => {
-                if let Some(ToplevelDefinition::Value(tld)) = tlds.get(identifier) {
+                // follow the chain of value references; a chain longer than the number of
+                // definitions runs in a circle
+                let mut referenced = tlds.get(identifier);
+                let mut hops = 0;
+                while let Some(ToplevelDefinition::Value(ToplevelValueDefinition {
+                    value:
+                        ASN1Value::ElsewhereDeclaredValue {
+                            module: None,
+                            parent: None,
+                            identifier: next,
+                        },
+                    ..
+                })) = referenced
+                {
+                    if hops > tlds.len() {
+                        return Err(grammar_error!(
+                            LinkerError,
+                            "Circular value reference '{}'",
+                            identifier
+                        ));
+                    }
+                    hops += 1;
+                    referenced = tlds.get(next);
+                }
+                if let Some(ToplevelDefinition::Value(tld)) = referenced {
                     *self = tld.value.clone();
                     self.link_with_type(tlds, ty, type_name)?;
                 }
